@@ -222,6 +222,9 @@ func writeSTL(wg *sync.WaitGroup, path string) (chan<- []*sdf.Triangle3, error) 
 				d.Vertex3[2] = float32(t[2].Z)
 				if err := binary.Write(buf, binary.LittleEndian, &d); err != nil {
 					fmt.Printf("%s\n", err)
+					// keep reading so the renderer is not blocked on the channel
+					for range c {
+					}
 					return
 				}
 				count++
